@@ -30,7 +30,7 @@ impl Limiter {
 
 impl Process for Limiter {
     fn complete(&mut self) -> ProcessResult<()> {
-        Ok(())
+        self.next.complete()
     }
     fn process(&mut self, context: Context) -> ProcessResult<ProcessDesision> {
         if self.skipped < self.skip {
